@@ -12,17 +12,27 @@
    re-executed world: all-or-nothing and read-only-is-noop on the real backend.  Executions come in pairs from the
    same state and must be identical (determinism); the ample pair must perform exactly the actions TLC prescribed.
 
+   CREATION FRAMES (the transaction-level creation and the CREATE opcode) are re-executed like call frames: the
+   endowment moves when the init code begins, the init code's writes belong to the new address, and when the init
+   code has ended normally (end event: rl = length of the code it returns, gas left) the CODE DEPOSIT decides: the
+   frame succeeds iff rl <= MaxCodeSize and CreateDataGas * rl <= gas left - then exactly the deposit is charged and
+   code + creation record appear - otherwise, as after revert / error, it is undone to its mark, ALL its gas is gone
+   (revert: the rest comes back) and the caller sees 0.  A creation that runs no code and reports failure (address
+   collision) is accepted only towards an address that holds something, and must change nothing.
+
    Named deviations (accepted only when listed in known_findings.txt, see CallFrames.tla):
      Dev_RevertAcrossSuicideLosesStorage   the real state matches the world re-executed with devS
      Dev_NestedFailVersionGapPanics        the real run panicked exactly where devG predicts it *)
 EXTENDS CallFramesOps, TraceBase, SequencesExt
-CONSTANTS AllowedDev, DepthLimit
+CONSTANTS AllowedDev, DepthLimit,
+          MaxCodeSize, CreateDataGas,   \* the platform's code deposit rule (params.MaxCodeSize, params.CreateDataGas)
+          Precompiles                   \* callees without an account: modelled for read-only calls only (no state, any outcome)
 VARIABLES bal0, stor0
 tvars == <<bal0, stor0, l>>
 
 GapMsg == "the version of change log and account is not match"
 Stipend == 2300
-AllKinds == {"call", "callcode", "delegatecall", "staticcall"}
+AllKinds == CallKinds \cup {"create"}
 
 \* gas amounts are logged as <<high, low>> in base 2^30 (TLC integers are 32 bit)
 GLeq(a, b) == a[1] < b[1] \/ (a[1] = b[1] /\ a[2] <= b[2])
@@ -30,9 +40,9 @@ GLeq(a, b) == a[1] < b[1] \/ (a[1] = b[1] /\ a[2] <= b[2])
 \* ------------------------------------------------------------------ re-execution of the observed events
 \* frame of the machine: entry data + what has been seen of it
 MFrame(w, e, callerCtx, callerRo, den, ceil) ==
-  [k |-> e.k, ctx |-> CtxOf(e.k, e.to, callerCtx), to |-> e.to, ro |-> callerRo \/ e.k = "staticcall", v |-> e.v,
-   mark |-> Len(w.jr), den |-> den, hc |-> e.to \in Contracts /\ w.code[e.to],
-   ran |-> FALSE, end |-> "", cg |-> e.g, cc |-> e.c, sg |-> 0, eg |-> 0, ec |-> 0, ceil |-> ceil]
+  [k |-> e.k, ctx |-> CtxOf(e.k, e.to, callerCtx), from |-> callerCtx, to |-> e.to, ro |-> callerRo \/ e.k = "staticcall", v |-> e.v,
+   mark |-> Len(w.jr), den |-> den, hc |-> e.k = "create" \/ (e.to \in CA /\ w.code[e.to]), pre |-> e.to \in Precompiles,
+   ran |-> FALSE, end |-> "", cg |-> e.g, cc |-> e.c, sg |-> 0, eg |-> 0, ec |-> 0, rl |-> 0, ceil |-> ceil]
 Bad(m, why) == [m EXCEPT !.ok = FALSE, !.why = why]
 SetTop(m, f) == [m EXCEPT !.fs[Len(m.fs)] = f]
 
@@ -41,15 +51,20 @@ StepCall(m, e) ==
       f == m.fs[Len(m.fs)]
       cctx == IF top THEN Sender ELSE f.ctx
       cro == IF top THEN FALSE ELSE f.ro
-      den == (e.k \in {"call", "callcode"} /\ e.v > m.w.bal[cctx]) \/ Len(m.fs) > DepthLimit
-      w2 == IF den THEN m.w ELSE EnterW(m.w, e.k, cctx, e.to, e.v)
-      ceil == IF top THEN e.g ELSE e.c + (IF e.v > 0 THEN Stipend ELSE 0)
-  IN IF e.k \notin AllKinds \/ e.to \notin Addrs \/ e.v < 0 THEN Bad(m, "call outside the universe")
+      create == e.k = "create"
+      den == (e.k \in {"call", "callcode", "create"} /\ e.v > m.w.bal[cctx]) \/ Len(m.fs) > DepthLimit
+      \* (a creation moves its endowment when the init code begins: a collision is refused before)
+      w2 == IF den \/ create \/ e.to \in Precompiles THEN m.w ELSE EnterW(m.w, e.k, cctx, e.to, e.v)
+      ceil == IF top THEN e.g ELSE IF create THEN e.g - e.c ELSE e.c + (IF e.v > 0 THEN Stipend ELSE 0)
+  IN IF e.k \notin AllKinds \/ e.to \notin Addrs \cup Precompiles \/ e.v < 0 THEN Bad(m, "call outside the universe")
+     ELSE IF e.to \in Precompiles /\ e.k # "staticcall" THEN Bad(m, "call of a precompile that is not read-only")
+     ELSE IF create /\ (cctx \notin Creators \/ e.to # New(cctx)) THEN Bad(m, "creation outside the universe")
      ELSE IF e.ctx # cctx THEN Bad(m, "call issued by another account than the frame's context")
      ELSE IF ~top /\ (~f.ran \/ f.end # "" \/ f.den \/ ~f.hc) THEN Bad(m, "call from a frame that does not run")
      ELSE IF ~top /\ e.g > f.ceil THEN Bad(m, "gas grew before a call")
      ELSE IF ~top /\ e.c > e.g THEN Bad(m, "call cost above the gas held")
      ELSE IF cro /\ e.k = "call" /\ e.v > 0 THEN Bad(m, "value call executed inside a read-only frame")
+     ELSE IF cro /\ create THEN Bad(m, "creation executed inside a read-only frame")
      ELSE [m EXCEPT !.w = w2, !.fs = Append(IF top THEN <<>> ELSE [m.fs EXCEPT ![Len(m.fs)].ceil = e.g - e.c],
                                             MFrame(m.w, e, cctx, cro, den, ceil))]
 
@@ -68,12 +83,13 @@ Runs(m, e) ==
 StepBegin(m, e) ==
   LET f == m.fs[Len(m.fs)]
       passed == e.g - (IF f.v > 0 /\ f.k \in {"call", "callcode"} THEN Stipend ELSE 0)   \* callGasTemp
-      avail == f.cg - (f.cc - passed)                                                      \* gas held - base cost
+      avail == IF f.k = "create" THEN f.cg - f.cc ELSE f.cg - (f.cc - passed)             \* gas held - base cost
   IN IF Runs(m, e) # "" THEN Bad(m, Runs(m, e))
      ELSE IF f.ran THEN Bad(m, "second begin")
      ELSE IF Len(m.fs) > 1 /\ (passed < 0 \/ passed > avail - (avail \div 64)) THEN Bad(m, "callee got more than 63/64 of the gas available")
      ELSE IF Len(m.fs) = 1 /\ e.g # f.cg THEN Bad(m, "transaction-level frame did not start with the gas supplied")
-     ELSE SetTop(m, [f EXCEPT !.ran = TRUE, !.sg = e.g, !.ceil = e.g])
+     ELSE [SetTop(m, [f EXCEPT !.ran = TRUE, !.sg = e.g, !.ceil = e.g])
+             EXCEPT !.w = IF f.k = "create" THEN EnterW(m.w, "create", f.from, f.to, f.v) ELSE m.w]
 
 StepOp(m, e) ==
   LET f == m.fs[Len(m.fs)] IN
@@ -90,27 +106,41 @@ StepEnd(m, e) ==
   ELSE IF e.k \notin {"stop", "revert", "err", "suicide"} THEN Bad(m, "unknown end")
   ELSE IF e.k = "suicide" /\ (f.ro \/ e.to \notin Addrs) THEN Bad(m, "selfdestruct executed inside a read-only frame / outside the universe")
   ELSE IF e.k # "err" /\ e.c > e.g THEN Bad(m, "cost above the gas held")
-  ELSE [SetTop(m, [f EXCEPT !.end = e.k, !.eg = e.g, !.ec = e.c])
+  ELSE IF e.cf # (f.k = "create") THEN Bad(m, "a creation frame is taken for a call frame or the other way round")
+  ELSE [SetTop(m, [f EXCEPT !.end = e.k, !.eg = e.g, !.ec = e.c, !.rl = e.rl])
           EXCEPT !.w = IF e.k = "suicide" THEN SuicideW(m.w, f.ctx, e.to) ELSE m.w]
 
+\* the code deposit of a creation frame whose init code has ended normally cannot be taken
+DepositFails(f) ==
+  f.k = "create" /\ f.end \in {"stop", "suicide"} /\ (f.rl < 0 \/ f.rl > MaxCodeSize \/ CreateDataGas * f.rl > f.eg - f.ec)
 StepRet(m, e) ==
   LET n == Len(m.fs)
       f == m.fs[n]
+      create == f.k = "create"
       flag == IF f.den THEN 0
-              ELSE IF ~f.ran THEN (IF f.hc THEN -1 ELSE 1)           \* an account with code must run; one without succeeds
-              ELSE IF f.end \in {"stop", "suicide"} THEN 1
+              ELSE IF ~f.ran THEN (IF f.pre \/ create THEN (IF e.v = 1 THEN 1 ELSE 0)   \* a precompile succeeds or fails; a creation: empty init code / collision
+                                   ELSE IF f.hc THEN -1 ELSE 1)      \* an account with code must run; one without succeeds
+              ELSE IF f.end \in {"stop", "suicide"} THEN (IF DepositFails(f) THEN 0 ELSE 1)
               ELSE IF f.end \in {"revert", "err"} THEN 0 ELSE -1
-      undo == flag = 0 /\ ~f.den
+      undo == flag = 0 /\ ~f.den /\ f.ran
       gap == undo /\ GapIn(m.w.jr, f.mark)
-      w2 == IF undo THEN FailW(m.w, f) ELSE m.w
-      held == IF n = 1 THEN 0 ELSE f.cg - f.cc                      \* what the caller kept
-      back == IF f.end = "err" THEN 0 ELSE f.eg - f.ec              \* exact: an error burns everything, else the rest returns
+      w2 == IF undo THEN FailW(m.w, f)
+            ELSE IF create /\ flag = 1 /\ f.ran THEN CreatedW(m.w, f, f.rl > 0)
+            ELSE IF create /\ flag = 1 THEN CreatedW(EnterW(m.w, "create", f.from, f.to, f.v), f, FALSE)     \* empty init code
+            ELSE m.w
+      held == IF n = 1 THEN 0 ELSE IF create THEN f.cg - f.cc - f.sg ELSE f.cg - f.cc    \* what the caller kept
+      \* exact: an error (a creation also: a failed deposit) burns everything, else the rest returns - less the deposit
+      back == IF f.end = "err" \/ DepositFails(f) THEN 0
+              ELSE IF create /\ f.end \in {"stop", "suicide"} THEN f.eg - f.ec - CreateDataGas * f.rl
+              ELSE f.eg - f.ec
       rest == SubSeq(m.fs, 1, n - 1)
   IN IF n = 0 THEN Bad(m, "return outside a frame")
      ELSE IF flag = -1 THEN Bad(m, "callee with code did not run / did not end")
      ELSE IF e.v # flag THEN Bad(m, "success flag does not follow from how the callee ended")
+     ELSE IF create /\ ~f.ran /\ ~f.den /\ flag = 0 /\ ~Occupied(m.w, bal0, f.to) THEN Bad(m, "creation refused although the new address holds nothing")
      ELSE IF f.ran /\ e.g # held + back THEN Bad(m, "gas returned differs from the exact accounting")
-     ELSE IF ~f.ran /\ (e.g < held \/ e.g > f.cg) THEN Bad(m, "gas grew across a call that ran no code")
+     ELSE IF create /\ ~f.ran /\ (e.g < 0 \/ e.g > f.cg - f.cc) THEN Bad(m, "gas grew across a creation that ran no code")
+     ELSE IF ~create /\ ~f.ran /\ (e.g < held \/ e.g > f.cg) THEN Bad(m, "gas grew across a call that ran no code")
      ELSE [m EXCEPT !.w = w2, !.gap = m.gap \/ gap,
                     !.fs = IF n = 1 THEN <<>> ELSE [rest EXCEPT ![n - 1].ceil = e.g]]
 
@@ -132,11 +162,12 @@ M0(devS) == [w |-> World0(devS, FALSE, bal0, stor0), fs |-> <<>>, ok |-> TRUE, g
 
 FinMatches(w, fin) ==
   /\ \A a \in Addrs : fin[a].bal = w.bal[a]
-  /\ \A c \in Contracts : /\ fin[c].dead = w.dead[c]
+  /\ \A c \in CA :        /\ fin[c].dead = w.dead[c]
                           /\ (fin[c].code = "y") = w.code[c] /\ fin[c].code \in {"y", "n"}
                           /\ \A s \in Slots : fin[c][s] = w.stor[c][s]
   /\ fin.nlog = NEv(w, "log")
   /\ fin.nfail \in 0..NEv(w, "fail")      \* the platform MAY record a failure event per failed call (it does today: equality holds)
+  /\ fin.ncreate \in 0..NEv(w, "create")  \* ... and a creation record per creation that succeeded and was not undone
 
 \* a run that completed: every event legal, stack empty, real post-state = re-executed world
 Completed(r, devS) ==
@@ -150,7 +181,7 @@ CrashedAtGap(r) ==
   LET m == Fold(M0(FALSE), r.obs, 1, TRUE)
       f == m.fs[Len(m.fs)] IN
   /\ r.crash = GapMsg /\ m.ok /\ ~m.gap /\ m.fs # <<>>
-  /\ f.end \in {"revert", "err"} /\ GapIn(m.w.jr, f.mark)
+  /\ (f.end \in {"revert", "err"} \/ DepositFails(f)) /\ GapIn(m.w.jr, f.mark)
 
 \* (IF-THEN-ELSE, not a disjunction: a deviation is only consulted when the correct reading does not match)
 RunSandboxed(r) ==
@@ -168,9 +199,13 @@ ActOf(e) ==
   CASE e.t = "call" -> [t |-> "enter", k |-> e.k, to |-> e.to, v |-> e.v, s |-> ""]
     [] e.t = "sstore" -> [t |-> "sstore", k |-> "", to |-> "", v |-> e.v, s |-> e.s]
     [] e.t = "log" -> [t |-> "log", k |-> "", to |-> "", v |-> 0, s |-> ""]
-    [] e.t = "end" -> [t |-> "exit", k |-> (CASE e.k = "stop" -> "ok" [] e.k = "revert" -> "revert" [] e.k = "err" -> "fail" [] OTHER -> "suicide"),
+    [] e.t = "end" -> [t |-> "exit", k |-> (CASE e.k = "stop" -> (IF ~e.cf THEN "ok"                       \* a creation: how the deposit went
+                                                                  ELSE IF e.rl < 0 \/ e.rl > MaxCodeSize THEN "toobig"
+                                                                  ELSE IF CreateDataGas * e.rl > e.g - e.c THEN "nodeposit" ELSE "ok")
+                                              [] e.k = "revert" -> "revert" [] e.k = "err" -> "fail" [] OTHER -> "suicide"),
                        to |-> e.to, v |-> 0, s |-> ""]
-IsAct(e) == e.t \in {"call", "sstore", "log", "end"}
+\* (the read-only calls of precompiles are the gas burner of the harness' init code, not actions of the generator)
+IsAct(e) == e.t \in {"call", "sstore", "log", "end"} /\ ~(e.t = "call" /\ e.to \in Precompiles)
 ObsActs(obs) == LET sel == SelectSeq(obs, IsAct) IN [i \in 1..Len(sel) |-> ActOf(sel[i])]
 Prescribed(r, prog) ==
   LET a == ObsActs(r.obs) IN
@@ -181,7 +216,7 @@ TReset == /\ Ev("reset")
           /\ bal0' = [a \in Addrs |-> E.bal[a]]
           /\ stor0' = [c \in Contracts |-> [s \in Slots |-> E.base[c][s]]]
 \* an action of the behaviour that only extends the program (the tree is run when its outermost frame has ended)
-TBuild == /\ Ev("Enter") \/ Ev("EnterTop") \/ Ev("SStore") \/ Ev("Log") \/ Ev("Exit") \/ Ev("Suicide")
+TBuild == /\ Ev("Enter") \/ Ev("EnterTop") \/ Ev("SStore") \/ Ev("Log") \/ Ev("Exit") \/ Ev("Suicide") \/ Ev("Collide")
           /\ E.run = FALSE
           /\ UNCHANGED <<bal0, stor0>>
 TRun == /\ Ev("Exit") \/ Ev("Suicide") \/ Ev("Tree")
